@@ -461,7 +461,7 @@ def gen_tle(rng):
         inc = rng.uniform(0, 120)
     inc = round(inc, 4)
     raan, argp, ma = (round(rng.uniform(0, 359.9999), 4) for _ in range(3))
-    year = rng.randint(1973, 2017)
+    year = gen_year(rng)
     ndays = 366 if year % 4 == 0 else 365
     day = round(rng.uniform(1, ndays + 0.999), 8)
     if rng.random() < 0.05:
@@ -526,6 +526,15 @@ def gen_offset_us(rng):
 # is produced deliberately here: one "feature" per TLE on a base object of a chosen regime, thresholds from BOTH sides at the
 # resolution of the TLE field (the two adjacent field values between which the reference's own classification flips).
 
+def gen_year(rng):
+    """epoch year: mostly the property's 1973-2017, one in six anywhere in the two-digit year field's range — 57-68 and 69-99 are 19xx,
+    00-56 are 20xx (the TLE pivot; POSIX %y pivots at 69)"""
+    r = rng.random()
+    if r < 0.84:
+        return rng.randint(1973, 2017)
+    return rng.choice([rng.randint(1957, 1968), rng.randint(1969, 1972), rng.randint(2018, 2056), 1957, 1968, 1969, 2056])
+
+
 def fmt_tle(p):
     """TLE text of the exact field values in `p` (written here, not by beyond)"""
     ndots = f"{p['ndot']: 0.8f}".replace("0.", ".")
@@ -564,7 +573,7 @@ def base_fields(rng, regime):
         n = rng.choice([rng.uniform(0.5, 6.2), rng.uniform(0.95, 1.05), rng.uniform(1.95, 2.06)])
         e = rng.uniform(0.0005, min(0.9, 1 - (RE_KM + 300.0) / _a_km(n)))
     be = math.floor(math.log10(abs(bstar))) + 1
-    year = rng.randint(1973, 2017)
+    year = gen_year(rng)
     return {"norad": rng.randint(1, 99999), "cospar": f"{rng.randint(57, 99):02d}{rng.randint(1, 999):03d}{rng.choice(['A', 'B', 'AB'])}",
             "year": year, "day": round(rng.uniform(2.0, 364.0), 8), "ndot": round(rng.uniform(-1e-5, 2e-4), 8),
             "nddm": rng.choice([0, 0, rng.randint(10000, 99999)]), "ndde": 0, "bm": int(round(bstar / 10.0 ** be * 1e5)), "be": be,
@@ -677,7 +686,10 @@ FEATURES = [
     ("epoch-day=001.00000000", _set(day=1.0), None), ("epoch-day=001.00000001", _set(day=1.00000001), None),
     ("epoch-leap-day-366", _leap_day366, None), ("epoch-year-end-365", _year_end, None),
     ("epoch-year=2000", _set(year=2000), None), ("epoch-year=1999", _set(year=1999), None), ("epoch-year=1973", _set(year=1973), None),
-    ("epoch-year=2017", _set(year=2017), None), ("epoch-feb29", lambda p, rng, side: p.update(year=[1996, 2016][side], day=[60.0, 60.5][side]) or True, None),
+    ("epoch-year=2017", _set(year=2017), None),
+    # the two-digit year field: 57 is the first year of the 19xx range, 68 | 69 the POSIX pivot, 56 the last year of the 20xx range
+    ("epoch-year=1957(yy=57)", _set(year=1957, day=277.8), None), ("epoch-year=1958(yy=58)", _set(year=1958), None), ("epoch-year=1968(yy=68)", _set(year=1968), None),
+    ("epoch-year=1969(yy=69)", _set(year=1969), None), ("epoch-year=2056(yy=56)", _set(year=2056), None), ("epoch-year=1964(yy=64)", _set(year=1964), None), ("epoch-feb29", lambda p, rng, side: p.update(year=[1996, 2016][side], day=[60.0, 60.5][side]) or True, None),
     ("mean-motion=16.5", _set(n8=1650000000, e7=300), ["near-low"]), ("mean-motion=0.5", _set(n8=50000000), ["deep"]),
     ("perigee=220km(by e)", _thr_perigee(220.0, "e"), ["near-full"]), ("perigee=220km(by n)", _thr_perigee(220.0, "n"), ["near-full"]),
     ("perigee=156km(by e)", _thr_perigee(156.0, "e"), ["near-low"]), ("perigee=156km(by n)", _thr_perigee(156.0, "n"), ["near-low"]),
@@ -970,6 +982,14 @@ def check_tle(out, rng, l1, l2, info, offsets):
     sat = reference(l1, l2)
     deep = sat.method == "d"
     full = (not deep) and sat.isimp == 0
+    # the orbit's date is the epoch of the text, parsed here independently (two-digit year: 57-99 -> 19xx, 00-56 -> 20xx; day of year from 1)
+    yy = int(l1[18:20])
+    yyc = "57-68" if 57 <= yy <= 68 else "69-99" if yy >= 69 else "00-56"
+    out.tally("epoch-year-field=" + yyc)
+    d_epoch = abs((orb.date.change_scale("UTC").datetime - info["epoch"]) // US)
+    if d_epoch > 1:
+        out.fail(f"tle-epoch:year-field-{yyc}", "the date of an orbit read from a TLE is not the epoch of the text (year field: 57-99 -> 19xx, 00-56 -> 20xx)", inp0,
+                 observed=str(orb.date), expected=info["epoch"].isoformat())
     model = "sdp4" if deep else ("sgp4-full" if full else "sgp4-simple")
     tally_branches(out, "branch", reference_branches(sat))
     if info.get("feature"):
@@ -1022,6 +1042,24 @@ def check_tle(out, rng, l1, l2, info, offsets):
             out.count(key=(l1, off, "td"), nontrivial=off != 0, kind="wrapper-timedelta")
             if not (dp <= tol_pos(speed) and dv <= acc * 50e-6 + 1e-9):
                 out.fail(family_of(info, off, "wrapper-timedelta"), "propagate(timedelta) differs from the reference at epoch + timedelta", inp, observed=got2, expected=exp, dpos_m=dp)
+        # 2b. requests expressed relative to the orbit (orb.date + dt, iter from the orbit's date): the same instant as the harness's own
+        #     epoch + offset (independent parse of the text), compared with the reference there
+        from beyond.dates import timedelta as _td
+        rel = []
+        try:
+            rel.append(("orb.date+dt", [float(x) for x in orb.propagate(orb.date + _td(microseconds=off))]))
+            if off != 0:
+                pts = list(orb.iter(start=orb.date, stop=_td(microseconds=off), step=_td(microseconds=off)))
+                rel.append(("iter", [float(x) for x in pts[-1]]))
+                out.tally(f"wrapper-iter-points={len(pts)}")
+        except Exception as e:
+            out.fail(family_of(info, off, "wrapper-relative-raises-" + type(e).__name__), "a request relative to the orbit's date raises", inp, observed=repr(e), expected=exp)
+        for how, got3 in rel:
+            dp, dv = dist(got3, exp)
+            out.count(key=(l1, off, how), nontrivial=off != 0, kind="wrapper-relative", how=how, year_field=yyc)
+            if not (dp <= tol_pos(speed) and dv <= acc * 50e-6 + 1e-9):
+                out.fail(family_of(info, off, f"wrapper-relative({how}):yy-{yyc}"), f"{how}: the state at (orbit date + offset) is not the reference's at (epoch of the text + offset)",
+                         inp, observed=got3, expected=exp, dpos_m=dp)
         # 3. label independence of the wrapper
         other = date.change_scale(olabel)
         goto = [float(x) for x in orb.propagate(other)]
